@@ -22,7 +22,8 @@ PROP = "C07"
 LEVEL = "exploration"
 RULE = ("seeded scenarios. Network kind: parent-closed topology of 2..8 addresses of which a seeded subset is absent (next hop "
         "absent) or halted; histories (<= 12 calls, up to 3 in flight on different nodes) of write/send (direct, routed, to self, "
-        "traffic_direct), multicast, node_address=, multicast_level=, MCU crash+restart (fresh object on the still running radio), "
+        "traffic_direct), multicast, node_address=, multicast_level=, MCU crash+restart (fresh object on the still running radio), pass-through radio attributes (interrupt_config, pa_level, channel, getters), "
+        "re-configuration of address prefix/suffix/allow_multicast followed by node_address re-assignment, "
         "fragmented and single-frame, ack and non-ack types. Mesh "
         "kind: master + 1..3 mesh nodes with histories of renew_address, release_address, lookup_address, lookup_node_id, "
         "check_connection(both modes), send, write. Faults: packet/ACK loss ordinals, all ACKs of one node lost, NETWORK_ACK "
